@@ -143,7 +143,15 @@ def generate(rng, tier):
         r = rng.randint(1, 5)
         n = rng.choice([max(1, r - 1), r, r + 1, rng.randint(1, 8)])
         cs.append(_lot_case(rng, n, r))
+    cs += _large(rng, tier)
     return cs
+
+
+def _large(rng, tier):
+    # problems with thousands of nodes (a 256-atom row against a reference of 2000+ points is ordinary use):
+    # iteration caps, arc-count arithmetic and big-M choices only show at this size
+    sizes = [(200, 2600)] if tier == "quick" else [(200, 2600), (1500, 1500), (256, 6000), (3000, 40)]
+    return [{"kind": "plan1d", "n": n, "m": m, "seed": rng.randrange(1 << 30)} for n, m in sizes]
 
 
 def search(rng, tier):
@@ -185,6 +193,26 @@ def _lp(p, q, C):
 def run_impl(case):
     import numpy as np
     import vectorizers.linear_optimal_transport as lot
+    if case["kind"] == "plan1d":
+        # large instance on a line, cost |x - y|: the optimum has the closed form  ∫ |F_p - F_q|  (independent of any solver)
+        rs = np.random.RandomState(case["seed"])
+        n, m = case["n"], case["m"]
+        x, y = np.sort(rs.uniform(0, 10, size=n)), np.sort(rs.uniform(0, 10, size=m))
+        p, q = rs.randint(1, 6, size=n).astype(np.float64), rs.randint(1, 6, size=m).astype(np.float64)
+        p, q = p / p.sum(), q / q.sum()
+        C = np.abs(x[:, None] - y[None, :])
+        try:
+            P = lot.transport_plan(p, q, C)
+        except Exception as e:
+            return {"exc": f"{type(e).__name__}: {e}"}
+        pts = np.concatenate([x, y])
+        order = np.argsort(pts, kind="stable")
+        w = np.concatenate([p, -q])[order]
+        cdf = np.cumsum(w)[:-1]
+        opt = float(np.sum(np.abs(cdf) * np.diff(pts[order])))
+        return {"min": float(P.min()), "row_err": float(np.abs(P.sum(axis=1) - p).max()),
+                "col_err": float(np.abs(P.sum(axis=0) - q).max()), "cost": float((P * C).sum()), "opt": opt,
+                "finite": bool(np.isfinite(P).all())}
     if case["kind"] == "plan":
         from pynndescent.optimal_transport import (allocate_graph_structures, initialize_supply, initialize_cost,
                                                    initialize_graph_structures, network_simplex_core)
@@ -372,7 +400,7 @@ def _finite(o, keys):
 
 def model_requests(case, outs):
     o = outs["normal"]
-    if "crash" in o or "exc" in o:
+    if "crash" in o or "exc" in o or case["kind"] == "plan1d":
         return []
     if case["kind"] == "plan":
         if not _finite(o, ("P", "flow", "cost_array")):
@@ -462,6 +490,22 @@ def oracle(case, outs):
     o = outs["normal"]
     if "crash" in o:
         return [_fail("ot.crash", f"process terminated: {o['crash']}")]
+    if case["kind"] == "plan1d":
+        n, m = case["n"], case["m"]
+        if "exc" in o:
+            return [_fail("ot.plan.raises", f"transport_plan raises {o['exc']} for a valid {n}x{m} instance")]
+        fails = []
+        if not o["finite"]:
+            return [_fail("ot.plan.non-finite", f"plan contains non-finite entries ({n}x{m})")]
+        if o["min"] < -1e-12:
+            fails.append(_fail("ot.plan.negative", f"{n}x{m}: min entry {o['min']}"))
+        if o["row_err"] > 1e-9:
+            fails.append(_fail("ot.plan.row-marginal", f"{n}x{m} instance on a line: row marginal error {o['row_err']}"))
+        if o["col_err"] > 1e-9:
+            fails.append(_fail("ot.plan.col-marginal", f"{n}x{m} instance on a line: column marginal error {o['col_err']}"))
+        if abs(o["cost"] - o["opt"]) > 1e-7 * max(1.0, abs(o["opt"])):
+            fails.append(_fail("ot.plan.not-optimal", f"{n}x{m} instance on a line (seed {case['seed']}): cost {o['cost']} vs closed-form optimum {o['opt']}"))
+        return fails
     if case["kind"] == "plan":
         n, m = len(case["p"]), len(case["q"])
         if "exc" in o:
@@ -516,6 +560,8 @@ def oracle(case, outs):
 
 def nontrivial(case, outs):
     o = outs["normal"]
+    if case["kind"] == "plan1d":
+        return "cost" in o
     if case["kind"] == "lot":
         return "lot" in o
     if "P" not in o:
@@ -528,6 +574,8 @@ def nontrivial(case, outs):
 
 def stats(case, outs):
     o = outs["normal"]
+    if case["kind"] == "plan1d":
+        return ["plan1d", f"plan1d.nodes>{(case['n'] + case['m']) // 1000}k"]
     if case["kind"] == "lot":
         n, r = len(case["X"]), len(case["R"])
         t = ["lot", f"lot.{case['path']}", f"lot.{case['metric']}", "lot.sample>ref" if n > r else "lot.sample<=ref"]
@@ -555,6 +603,8 @@ def stats(case, outs):
 
 
 def shrink_candidates(case):
+    if case["kind"] == "plan1d":
+        return
     import os
     if os.environ.get("VERIF_NOSHRINK"):   # development aid: report the failing input unshrunk
         return
